@@ -262,8 +262,9 @@ def sigma_filter(filename, region, step_size, box_size, shape, domask,
         _verif.point(ymin, "b1_after", index=i)
 
     logging.debug("background subtraction")
-    data[0 + ymin - data_row_min: data.shape[0] -
-         (data_row_max - ymax), :] -= ibkg[ymin:ymax, :]
+    # all stripes have written their background (barrier above), so the
+    # overlap rows that belong to the neighbouring stripes can be subtracted
+    data -= ibkg[data_row_min:data_row_max, :]
     logging.debug(".. done ")
 
     # reset/recycle the vals array
